@@ -1259,7 +1259,8 @@ class TreeHeightDistribution(PhaseTypeDistribution, DensityAwareDistribution):
 
             i += 1
 
-        if i - 1 == self.max_iter:
+        # warn if the search ended without reaching the required probability of absorption
+        if not p >= self.p_absorption:
             self._logger.warning(
                 "Could not reliably find time of almost sure absorption after maximum number of iterations. "
                 f"Using time {t:.1f} with probability of absorption 1 - {1 - p:.1e}. "
